@@ -36,7 +36,7 @@ Definition check_case := Manager.check_case.'''
 CHEADER = HEADER.replace('Manager.check_case', 'Manager.check_client_case')
 
 TYP = {'list': 'TList', 'dict': 'TDict', 'Value': 'TValue', 'Iterator': 'TIter', 'Shelf': 'TShelf',
-       'ShelfRef': 'TShelfRef', 'nosuch': 'TUnknown'}
+       'ShelfRef': 'TShelfRef', 'AList': 'TAutoList', 'nosuch': 'TUnknown'}
 METH = {'append': 'M_append', 'extend': 'M_extend', 'insert': 'M_insert', 'pop': 'M_pop',
         'remove': 'M_remove', 'index': 'M_index', 'count': 'M_count', 'reverse': 'M_reverse',
         'sort': 'M_sort', '__getitem__': 'M_getitem', '__setitem__': 'M_setitem',
@@ -167,6 +167,8 @@ LIST_M = ['append', 'extend', 'insert', 'pop', 'remove', 'index', 'count', 'reve
           '__getitem__', '__setitem__', '__delitem__', '__len__', '__contains__']
 DICT_M = ['__getitem__', '__setitem__', '__delitem__', '__len__', '__contains__', 'get', 'pop',
           'setdefault', 'clear', 'keys', 'values', 'items', 'popitem', 'update', 'copy', 'has_key']
+# what Server.create exposes for a list registered without proxy type / exposed tuple (AutoProxy)
+AUTO_M = ['append', 'clear', 'copy', 'count', 'extend', 'index', 'insert', 'pop', 'remove', 'reverse', 'sort']
 OTHER_M = ['get', 'set', '__next__', 'send', 'clone', 'me', '__str__', '__repr__', '#GETVALUE', '__iter__',
            'bogus', '__init__']
 
@@ -236,7 +238,7 @@ def gen_call(rng, kinds):
         kind = kinds[mid - 1]
     r = rng.random()
     if r < 0.72:
-        pool = {'list': LIST_M, 'Shelf': LIST_M + ['clone', 'me', 'clone'], 'ShelfRef': LIST_M,
+        pool = {'list': LIST_M, 'Shelf': LIST_M + ['clone', 'me', 'clone'], 'ShelfRef': LIST_M, 'AList': AUTO_M,
                 'dict': DICT_M, 'Value': ['get', 'set'], 'Iterator': ['__next__', '__next__', '__next__', 'send']}[kind]
         meth = rng.choice(pool)
     elif r < 0.9:
@@ -248,9 +250,10 @@ def gen_call(rng, kinds):
 
 
 def gen_create(rng):
-    typ = rng.choice(['list', 'list', 'dict', 'dict', 'Value', 'Shelf', 'Shelf', 'Iterator', 'ShelfRef', 'nosuch'])
+    typ = rng.choice(['list', 'list', 'dict', 'dict', 'Value', 'Shelf', 'Shelf', 'Iterator', 'ShelfRef', 'nosuch',
+                      'AList', 'AList'])
     r = rng.random()
-    if typ in ('list', 'Shelf'):
+    if typ in ('list', 'Shelf', 'AList'):
         args = [zl(rng)] if r < 0.8 else rng.choice([[], [z(rng)], [z(rng), z(rng)]])
     elif typ == 'dict':
         args = [zd(rng)] if r < 0.8 else rng.choice([[], [z(rng)]])
@@ -260,7 +263,7 @@ def gen_create(rng):
         args = [zl(rng)] if r < 0.85 else rng.choice([[], [zl(rng), zl(rng)]])
     else:
         args = [zl(rng)]
-    ok = (typ in ('list', 'Shelf') and (not args or args[0][0] == 'l') and len(args) <= 1) or \
+    ok = (typ in ('list', 'Shelf', 'AList') and (not args or args[0][0] == 'l') and len(args) <= 1) or \
          (typ == 'dict' and (not args or args[0][0] == 'd')) or \
          (typ == 'Value' and len(args) >= 2) or (typ in ('Iterator', 'ShelfRef') and len(args) == 1)
     return ['create', typ, args], (typ if ok else None)
@@ -342,6 +345,15 @@ BOUNDARY_SERVER = [
                                    ['call', 2, 'get', [['z', 1]], 0], ['call', 2, '__str__', [], 0],
                                    ['call', 1, 'clear', [], 0], ['call', 1, 'popitem', [], 0]]], hsf=0)],
 ]
+# a typeid registered without proxy type: exposed = public_methods(list) -- no dunder name, but clear / copy
+BOUNDARY_SERVER.append(
+    [dict(hs='ok', req=['create', 'AList', [['l', [3, 1, 2]]]], hsf=0),
+     dict(hs='ok', req=['accept', [['call', 1, 'sort', [], 0], ['call', 1, 'copy', [], 0], ['call', 1, '__len__', [], 0],
+                                   ['call', 1, '__getitem__', [['z', 0]], 0], ['call', 1, 'pop', [['z', 0]], 0],
+                                   ['call', 1, 'clear', [['z', 0]], 0], ['call', 1, 'clear', [], 0],
+                                   ['call', 1, 'pop', [], 0], ['call', 1, '#GETVALUE', [], 0]]], hsf=0),
+     dict(hs='ok', req=['incref', 1], hsf=0), dict(hs='ok', req=['decref', 1], hsf=0),
+     dict(hs='ok', req=['decref', 1], hsf=0), dict(hs='ok', req=['numobj'], hsf=0)])
 # the Iterator typeid (registered for PoolProxy.imap): __next__ through the proxy, to exhaustion
 ITER_CASE = [dict(hs='ok', req=['create', 'Iterator', [['l', [4, 5]]]], hsf=0),
              dict(hs='ok', req=['accept', [['call', 1, '__next__', [], 0], ['call', 1, '__next__', [], 0],
@@ -492,9 +504,9 @@ def gen_client_case(rng):
         r = rng.random()
         n = len(kinds)
         if r < 0.2 or n == 0:
-            typ = rng.choice(['list', 'list', 'dict', 'Value', 'Shelf', 'Shelf', 'nosuch'])
+            typ = rng.choice(['list', 'list', 'dict', 'Value', 'Shelf', 'Shelf', 'nosuch', 'AList', 'AList'])
             rr = rng.random()
-            if typ in ('list', 'Shelf'):
+            if typ in ('list', 'Shelf', 'AList'):
                 args = [zl(rng)] if rr < 0.85 else rng.choice([[], [z(rng)]])
             elif typ == 'dict':
                 args = [zd(rng)] if rr < 0.85 else rng.choice([[], [z(rng)]])
@@ -509,7 +521,7 @@ def gen_client_case(rng):
                 kinds.append((typ, True))
         elif r < 0.34:
             k = rng.randint(0, n)
-            case.append([rng.choice(['copy', 'copy', 'inherit']), k, rng.randint(10, 13)])
+            case.append([rng.choice(['copy', 'copy', 'inherit', 'inherit']), k, rng.randint(10, 13)])
             if k < n:
                 kinds.append((kinds[k][0], False))
         elif r < 0.54:
@@ -526,7 +538,7 @@ def gen_client_case(rng):
             rr = rng.random()
             if rr < 0.75:
                 pool = {'list': LIST_M, 'Shelf': LIST_M + ['clone', 'me', 'clone', 'clone'], 'ShelfRef': LIST_M,
-                        'dict': DICT_M, 'Value': ['get', 'set']}[kind]
+                        'AList': AUTO_M, 'dict': DICT_M, 'Value': ['get', 'set']}[kind]
                 meth = rng.choice(pool)
             elif rr < 0.9:
                 meth = rng.choice(LIST_M + DICT_M)
@@ -559,6 +571,12 @@ BOUNDARY_CLIENT = [
 BOUNDARY_CLIENT.append(
     [['create', 10, 'list', [['l', [1, 2]]]], ['inherit', 0, 11], ['drop', 0], ['call', 0, 'append', [['z', 3]]],
      ['call', 0, '#GETVALUE', []], ['inherit', 0, 12], ['drop', 0], ['call', 0, '__len__', []], ['drop', 0]])
+# the same with a proxy of an AutoProxy class (typeid registered without proxy type, like Queue):
+# pickled as (RebuildProxy, (AutoProxy, token, serializer, {exposed})), rebuilt through AutoProxy()
+BOUNDARY_CLIENT.append(
+    [['create', 10, 'AList', [['l', [1, 2]]]], ['inherit', 0, 11], ['drop', 0], ['call', 0, 'append', [['z', 3]]],
+     ['call', 0, 'copy', []], ['copy', 0, 12], ['inherit', 1, 13], ['drop', 0], ['call', 1, 'pop', []],
+     ['call', 0, '__len__', []], ['drop', 1], ['call', 0, 'clear', []], ['call', 0, '#GETVALUE', []], ['drop', 0]])
 # a proxy-returning method through a proxy that was passed on (unpickled): AttributeError + leak
 LEAK_CASE = [['create', 10, 'Shelf', [['l', [7]]]], ['copy', 0, 11], ['call', 1, 'clone', []],
              ['drop', 1], ['drop', 0]]
@@ -623,7 +641,8 @@ def correspond_client(res, n):
                 + [dict(case=c, impl=o) for c, o in list(zip(cases, outs))[k0 + len(BOUNDARY_CLIENT):k0 + len(BOUNDARY_CLIENT) + 1]],
                 rule='client level: the real accepter/handle_request/serve_client threads in-process, real '
                      'BaseManager/BaseProxy objects over real connections; random sequences of 3-22 operations '
-                     '(create list/dict/Value/Shelf, copy by pickling, drop, unpickle a stale token, call); '
+                     '(create list/dict/Value/Shelf and a list registered without proxy type (AutoProxy), copy by '
+                     'pickling, inherit = unpickle under _inheriting + after-fork hook, drop, unpickle a stale token, call); '
                      'non-trivial = at least 2 calls executed on a live referent; distinct by canonical JSON',
                 client_histogram=hist)
     return late
@@ -641,8 +660,9 @@ def gen_procs_case(rng):
         r = rng.random()
         n = len(owners)
         if r < 0.18 or n == 0:
-            typ = rng.choice(['list', 'dict', 'Value', 'Shelf'])
-            args = {'list': [zl(rng)], 'Shelf': [zl(rng)], 'dict': [zd(rng)], 'Value': [z(rng), z(rng)]}[typ]
+            typ = rng.choice(['list', 'dict', 'Value', 'Shelf', 'AList', 'AList'])
+            args = {'list': [zl(rng)], 'Shelf': [zl(rng)], 'AList': [zl(rng)], 'dict': [zd(rng)],
+                    'Value': [z(rng), z(rng)]}[typ]
             case.append(['create', 10, typ, args])
             owners.append(10)
             kinds.append((typ, True))
@@ -677,14 +697,14 @@ def gen_procs_case(rng):
             k = rng.choice([i for i in range(n) if owners[i] == 10])
             pid = 15 + spawned
             spawned += 1
-            case.append(['spawn', k, pid])
+            case.append(['spawn', k, pid, rng.choice(['spawn', 'forkserver'])])
             owners.append(pid)
             kinds.append((kinds[k][0], False))
             forked.append(pid)          # may exit like a forked one
         else:
             k = rng.randrange(n)
             kind = kinds[k][0]
-            pool = {'list': LIST_M, 'Shelf': LIST_M + ['clone', 'clone'], 'ShelfRef': LIST_M,
+            pool = {'list': LIST_M, 'Shelf': LIST_M + ['clone', 'clone'], 'ShelfRef': LIST_M, 'AList': AUTO_M,
                     'dict': DICT_M, 'Value': ['get', 'set']}[kind]
             meth = rng.choice(pool)
             args = gen_args(rng, meth, kind)
@@ -717,6 +737,17 @@ BOUNDARY_PROCS.append(SPAWN_CASE)
 BOUNDARY_PROCS.append([['create', 10, 'dict', [['d', [[1, 2]]]]], ['spawn', 0, 15], ['spawn', 0, 16], ['drop', 0],
                        ['call', 1, '__setitem__', [['z', 5], ['z', 6]]], ['exit', 16], ['call', 0, 'items', []],
                        ['exit', 15]])
+
+
+# the same scenario with an AutoProxy-class proxy (typeid registered like Queue), quick tier too;
+# and through the forkserver start method (thorough tier)
+SPAWN_AUTO_CASE = [['create', 10, 'AList', [['l', [1, 2]]]], ['spawn', 0, 15], ['call', 1, 'append', [['z', 3]]],
+                   ['drop', 0], ['call', 0, 'copy', []], ['exit', 15]]
+BOUNDARY_PROCS.append(SPAWN_AUTO_CASE)
+BOUNDARY_PROCS.append([['create', 10, 'AList', [['l', [4]]]], ['create', 10, 'list', [['l', [5]]]],
+                       ['spawn', 0, 15, 'forkserver'], ['spawn', 1, 16, 'forkserver'], ['call', 2, 'pop', []],
+                       ['call', 3, 'append', [['z', 6]]], ['exit', 15], ['exit', 16],
+                       ['call', 0, 'copy', []], ['call', 1, '__len__', []], ['drop', 0], ['drop', 0]])
 
 
 def procs_to_model(case, outs):
@@ -782,6 +813,147 @@ def correspond_procs(res, n, only=None):
     return late
 
 
+
+# ------------------------------------- lifetime of the typeids SyncManager registers itself
+# Referents whose values are outside the Coq model (Queue, JoinableQueue, Event, Lock, ...): the
+# proved equation C20_refcount (refcount = live proxies) and C20_in_table_iff_held are evaluated
+# as monitors on histories of the real SyncManager: proxies handed to fork / spawn / forkserver
+# children as Process arguments, used on both sides, dropped / children exiting in scripted orders.
+LIFE_TYPEIDS = ['Queue', 'JoinableQueue', 'Event', 'Lock', 'RLock', 'Semaphore', 'BoundedSemaphore', 'Condition',
+                'Barrier', 'list', 'dict', 'Value', 'Array', 'Namespace']
+LIFE_AUTO = ('Queue', 'JoinableQueue')        # registered without a proxy type: AutoProxy classes
+
+
+def life_basic(method, types, parent_first):
+    n = len(types)
+    case = [['create', t] for t in types] + [['start', method, 20, list(range(n))], ['use', 20, list(range(n))]]
+    case += [['puse', i] for i in range(n)]
+    drops = [['drop', i] for i in range(n)]
+    return case + (drops + [['exit', 20]] if parent_first else [['exit', 20]] + drops)
+
+
+def gen_life_case(rng):
+    types = [rng.choice(LIFE_TYPEIDS if rng.random() < 0.6 else LIFE_AUTO) for _ in range(rng.randint(1, 5))]
+    n = len(types)
+    case = [['create', t] for t in types]
+    parent = set(range(n))
+    kids = {}
+    used = set()
+    pused = set()
+    pid = 20
+    for _ in range(rng.randint(3, 14)):
+        r = rng.random()
+        if r < 0.3 and parent and len(kids) < 3:
+            idxs = sorted(rng.sample(sorted(parent), rng.randint(1, len(parent))))
+            case.append(['start', rng.choice(['spawn', 'forkserver', 'fork', 'spawn']), pid, idxs])
+            kids[pid] = idxs
+            pid += 1
+        elif r < 0.5 and kids:
+            k = rng.choice(sorted(kids))
+            todo = [i for i in kids[k] if i not in used and i not in pused]
+            if todo:
+                case.append(['use', k, todo])
+                used.update(todo)
+        elif r < 0.65 and parent:
+            i = rng.choice(sorted(parent))
+            if i not in pused:
+                case.append(['puse', i])
+                pused.add(i)
+        elif r < 0.85 and parent:
+            i = rng.choice(sorted(parent))
+            case.append(['drop', i])
+            parent.discard(i)
+        elif kids:
+            k = rng.choice(sorted(kids))
+            case.append(['exit', k])
+            del kids[k]
+    order = [['exit', k] for k in sorted(kids)] + [['drop', i] for i in sorted(parent)]
+    rng.shuffle(order)
+    return case + order
+
+
+def life_monitor(case, out):
+    """-> (signature, what) of the first / gravest deviation, or None"""
+    parent = {}
+    kids = {}
+    n = 0
+    worst = None
+    for step, (st, o) in enumerate(zip(case, out)):
+        k = st[0]
+        if k == 'create':
+            parent[n] = 1
+            n += 1
+        elif k == 'start':
+            held = set(st[3])
+            if st[1] == 'fork':      # a forked child has every proxy object the parent has
+                held |= {i for i, v in parent.items() if v}
+            kids[st[2]] = held
+            if o['obs'] != ['ok', len(st[3])]:
+                return ('C20:client-operation-hangs-or-crashes', 'child did not start: %r' % (o['obs'],))
+        elif k == 'drop':
+            parent[st[1]] = 0
+        elif k == 'exit':
+            kids.pop(st[1], None)
+            if o['obs'] != ['exit', 0]:
+                return ('C20:client-operation-hangs-or-crashes', 'child exit code %r' % (o['obs'],))
+        elif k in ('use', 'puse'):
+            if o['obs'][1] != o['obs'][2]:
+                return ('C20:proxy-call-differs-from-local',
+                        'step %d %r: through the proxy %r, on the local object %r' % (step, st, o['obs'][1], o['obs'][2]))
+        want = {i: parent[i] + sum(1 for h in kids.values() if i in h) for i in parent}
+        got = dict((i, rc) for i, rc in o['rc'])
+        for i in sorted(want):
+            typ = case[i][1]
+            if want[i] >= 1 and i not in got:
+                return ('C20:referent-disposed-while-proxy-lives',
+                        'after step %d %r the %s referent is gone although %d proxies exist' % (step, st, typ, want[i]))
+            if want[i] == 0 and i in got and (worst is None or worst[0] != 'C20:referent-survives-all-proxies'):
+                worst = ('C20:referent-survives-all-proxies',
+                         'after step %d %r no proxy to the %s referent exists in any process but the server '
+                         'still holds it (refcount %d)' % (step, st, typ, got[i]))
+            elif i in got and got[i] != want[i] and worst is None:
+                worst = ('C20:refcount-differs-from-live-proxies',
+                         'after step %d %r the %s referent has refcount %d, live proxies %d'
+                         % (step, st, typ, got[i], want[i]))
+        if o['numobj'] != len(got) and worst is None:
+            worst = ('C20:number-of-objects-wrong', 'number_of_objects() = %s, debug_info shows %d' % (o['numobj'], len(got)))
+    return worst
+
+
+def correspond_life(res, only=None):
+    rng = random.Random(res.seed * 7919 + 23)
+    if only is not None:
+        cases = only
+    else:
+        cases = [life_basic('spawn', LIFE_TYPEIDS, True), life_basic('forkserver', LIFE_TYPEIDS, False)]
+        if res.tier != 'quick':
+            cases += [life_basic('fork', LIFE_TYPEIDS, True), life_basic('fork', LIFE_TYPEIDS, False),
+                      life_basic('spawn', LIFE_TYPEIDS, False), life_basic('forkserver', LIFE_TYPEIDS, True)]
+            cases += [gen_life_case(rng) for _ in range(40)]
+    outs = []
+    for ch in core.chunks(cases, 10):
+        outs += core.run_driver('mgr_driver.py', dict(mode='life', cases=ch), timeout=1500)
+    hist = {}
+    steps = 0
+    for c, o in zip(cases, outs):
+        for st in c:
+            key = st[0] + (':' + st[1] if st[0] in ('create', 'start') else '')
+            hist[key] = hist.get(key, 0) + 1
+        steps += len(o)
+        bad = life_monitor(c, o)
+        if bad:
+            res.alarms.append(dict(signature=bad[0], what='(real SyncManager, real processes) ' + bad[1],
+                                   replay=dict(mode='life', case=c, impl=o)))
+    res.add_cov(evaluations=len(cases), distinct=len({json.dumps(c) for c in cases}), traces=len(cases),
+                rule='lifetime on the typeids SyncManager registers itself (Queue and JoinableQueue = AutoProxy '
+                     'classes, Event, Lock, RLock, Semaphore, BoundedSemaphore, Condition, Barrier, list, dict, Value, '
+                     'Array, Namespace): proxies passed as Process arguments to children started with spawn / '
+                     'forkserver (thorough: fork too), statements run through the proxies in child and parent and on '
+                     'a local twin, drops and child exits in both orders; after every step refcount = live proxies, '
+                     'in the table iff held, results equal those of the twin',
+                life_histogram=hist, life_steps_observed=steps)
+
+
 def run(res):
     res.proof_step('Props/C20.v', extra_targets=['Model/Manager.vo'], kernels_needed=['G_manager'])
     n = 150 if res.tier == 'quick' else 4000
@@ -789,7 +961,15 @@ def run(res):
         n = max(n, 1500)
     late = correspond_server(res, n)
     late += correspond_client(res, 40 if res.tier == 'quick' and not res.broken else min(n // 3, 800))
-    late += correspond_procs(res, 25) if res.tier != 'quick' else correspond_procs(res, 0, only=[SPAWN_CASE])
+    late += correspond_procs(res, 25) if res.tier != 'quick' else \
+        correspond_procs(res, 0, only=[SPAWN_CASE, SPAWN_AUTO_CASE])
+    correspond_life(res)
+    # a history on which the statement itself fails (a referent outliving every proxy / disposed
+    # under a live proxy) is reported before the differences from the model that accompany it;
+    # the repaired Iterator defect, if it is back, stays first
+    rank = {'C20:iterator-proxy-next-not-exposed': 0, 'C20:referent-survives-all-proxies': 1,
+            'C20:referent-disposed-while-proxy-lives': 1}
+    res.alarms.sort(key=lambda a: rank.get(a['signature'], 2))
     # defects of the unchanged tree (see docs/C20.md): one alarm per signature, smallest witness,
     # after everything else so that a new problem is reported first
     best = {}
@@ -802,9 +982,12 @@ def run(res):
         'requests are interleaved at request grain: one Server method call / one serve_client iteration is atomic '
         '(rests on the GIL, the RLock in create/incref/decref and C-level container methods; not modelled)',
         'id(obj) of a new referent is non-zero and differs from the idents of live referents (CPython addresses)',
-        'referents: list, dict (int keys/values), managers.Value, list iterators and a harness list subclass with '
-        'proxy-returning methods; a subset of their methods (34 names); other registered types (Namespace, Array, '
-        'Lock, Queue, Pool ...) only through the generic dispatch theorems',
+        'referents: list, dict (int keys/values), managers.Value, list iterators, a harness list subclass with '
+        'proxy-returning methods and a list registered without proxy type (AutoProxy class); a subset of their '
+        'methods (34 names); the other typeids SyncManager registers (Queue, JoinableQueue, Event, Lock, RLock, '
+        'Semaphore, Condition, Barrier, Array, Namespace) through the generic dispatch / lifetime theorems, whose '
+        'refcount equation is monitored on real fork / spawn / forkserver histories with a few statements per type '
+        'compared with a local twin; Pool and AsyncResult only through the generic theorems',
         'pickling of requests/replies, finaliser timing (CPython refcounting runs BaseProxy._decref at the last '
         'reference), socket transport and the HMAC itself (C18) are outside the model',
         'a client process that is killed never releases its proxies (no theorem claims otherwise)',
@@ -823,6 +1006,15 @@ def replay(path):
     out = core.run_driver('mgr_driver.py', dict(mode=rp['mode'], cases=[c]), timeout=900)[0]
     print('signature:', d.get('signature'))
     print('case:', json.dumps(c))
+    if rp['mode'] == 'life':
+        print('implementation now:')
+        for step, o in zip(c, out):
+            print('  ', json.dumps(step), '-> refcounts', json.dumps(o['rc']), 'objects', o['numobj'],
+                  json.dumps(o['obs'])[:300])
+        bad = life_monitor(c, out)
+        print('monitors satisfied (refcount = live proxies after every step, results as on the local twin)'
+              if not bad else '%s: %s' % bad)
+        return 1 if bad else 0
     if out and out[-1].get('hang'):
         print('implementation now: the operation does not return / crashes:', out[-1])
         return 1
